@@ -712,8 +712,7 @@ class UnionUnmarshaller(AbstractUnmarshaller[UnionT], tp.Generic[UnionT]):
 
         1. We iterate through each union member from top to bottom and call the
            resolved unmarshaller, returning the result.
-        2. If any of `(ValueError, TypeError, SyntaxError)`, try again with the
-           next unmarshaller.
+        2. If the unmarshaller raises an error, try again with the next unmarshaller.
         3. If all unmarshallers fail, then we have an invalid input, raise an error.
 
     Tip: TL;DR
@@ -751,9 +750,8 @@ class UnionUnmarshaller(AbstractUnmarshaller[UnionT], tp.Generic[UnionT]):
             ValueError: If `val` cannot be unmarshalled into any member type.
         """
         for routine in self.ordered_routines:
-            with contextlib.suppress(
-                ValueError, TypeError, SyntaxError, AttributeError
-            ):
+            # A member may reject the input with any error, try the next one.
+            with contextlib.suppress(Exception):
                 unmarshalled = routine(val)
                 return unmarshalled
 
